@@ -250,18 +250,29 @@ func TestNamedEnum(t *testing.T) {
 		nl := rapid.SampledFrom([]string{"\n", "\n", "\r\n"}).Draw(t, "nl")
 		var b strings.Builder
 		ws := func() string { return rapid.SampledFrom([]string{"", "", " ", "  ", "\t"}).Draw(t, "ws") }
+		hasComment := false
+		switch rapid.IntRange(0, 9).Draw(t, "leadComment") {
+		case 0: // a comment before the opening bracket
+			b.WriteString(ws() + "// pets" + nl)
+			hasComment = true
+		case 1:
+			b.WriteString(ws() + "/* pets */" + rapid.SampledFrom([]string{" ", nl, ""}).Draw(t, "leadSep"))
+			hasComment = true
+		}
 		b.WriteString(ws() + "[")
 		multi := rapid.Bool().Draw(t, "multiline")
 		if multi {
 			b.WriteString(nl)
 		}
-		hasComment := false
 		for i := range items {
 			if multi && rapid.IntRange(0, 4).Draw(t, "ownLineComment") == 0 {
-				if rapid.Bool().Draw(t, "blockComment") {
+				switch rapid.IntRange(0, 2).Draw(t, "blockComment") {
+				case 0:
 					b.WriteString(ws() + "/* block" + nl + "  comment */" + nl)
-				} else {
+				case 1:
 					b.WriteString(ws() + "// interline comment" + nl)
+				default:
+					b.WriteString(ws() + "//" + ws() + nl) // an empty comment: the line break ends it
 				}
 				hasComment = true
 			}
@@ -270,7 +281,10 @@ func TestNamedEnum(t *testing.T) {
 				b.WriteString(",")
 			}
 			if multi {
-				switch rapid.IntRange(0, 5).Draw(t, "itemComment") {
+				switch rapid.IntRange(0, 6).Draw(t, "itemComment") {
+				case 2: // an empty comment after the item
+					b.WriteString(rapid.SampledFrom([]string{" //", "//", " // ", " //\t", " /**/"}).Draw(t, "emptyComment"))
+					hasComment = true
 				case 0:
 					items[i].Comment = fmt.Sprintf("comment %d", i)
 					b.WriteString(" // " + items[i].Comment)
@@ -397,6 +411,20 @@ func TestRegexType(t *testing.T) {
 		}
 		tail := rapid.SampledFrom([]string{"", " ", "\n", " // note", "/", " /x/", "\nGET /cats"}).Draw(t, "tail")
 		c := RegexCase{Pattern: pat, Tail: tail}
+		if rapid.IntRange(0, 7).Draw(t, "curated") == 0 {
+			// patterns whose examples need care: zero-width assertions, classes without printable ASCII
+			cur := rapid.SampledFrom([][]string{
+				{`\Bfoo`, "afoo", "foo", "xfoox", " foo"}, {`[a-z]+\B`, "ua", "u", "ab c", "a"}, {`\b-\b`, "a-a", "-", " - ", "a-"},
+				{`foo\B`, "fooa", "foo", "foo ", "xfoob"}, {`[^\x00-\x7f]`, "\u00e9", "e", "", "a\u00e9"}, {`[^ -~\s]`, "\u00a1", "a", " ", "\u0001"},
+				{`[\x{80}-\x{10ffff}]`, "\u00e9", "e", "\U0001F600", ""}, {`[^\x00-\x7f\d]+`, "\u00e9\u00e9", "12", "x", "\u00e9"},
+				{`^\w\b.$`, "a-", "ab", "a", "--"}, {`\bcat\b`, "cat", "a cat.", "cats", "concat"},
+			}).Draw(t, "curatedPattern")
+			c = RegexCase{Pattern: cur[0], Tail: tail, Probes: cur[1:]}
+			checkRegex(t, c)
+			run.Eval(chkRegex, true, c.Pattern, tail)
+			run.Label("regex:curated-assertions-and-classes")
+			return
+		}
 		for i := 0; i < 4; i++ {
 			m := re.Sample(t, "m")
 			if endsWithBackslash {
